@@ -725,6 +725,9 @@ pub fn extra_cells(seed: u64, per_kind: usize) -> Vec<Cell> {
 }
 
 /// Dirichlet alpha vectors inside E by class (DESIGN C11).
+/// number of fixed vectors at the head of `dirichlet_alphas` (they are run even inside a known-finding region)
+pub const DIRICHLET_FIXED: usize = 19;
+
 pub fn dirichlet_alphas(ft: Ft, r: &mut BaseRng, count: usize) -> Vec<Vec<f64>> {
     let (lo, hi) = if ft == Ft::F32 { (1e-2, 1e3) } else { (1e-3, 1e4) };
     let mut out: Vec<Vec<f64>> = vec![
@@ -745,7 +748,13 @@ pub fn dirichlet_alphas(ft: Ft, r: &mut BaseRng, count: usize) -> Vec<Vec<f64>> 
         (0..45).map(|i| 0.3 + (i % 7) as f64 * 0.4).collect(),
         (0..63).map(|i| 1.0 + (i % 3) as f64).collect(),
         vec![1.5; 64],
+        // long vectors on the Beta method (all entries <= 0.1): the reverse cumulative sums over > 32 entries
+        vec![0.05; 34],
+        (0..40).map(|i| 0.02 + (i % 5) as f64 * 0.02).collect(),
+        vec![0.03; 48],
+        vec![0.1; 64],
     ];
+    debug_assert_eq!(out.len(), DIRICHLET_FIXED);
     for _ in 0..count {
         let len = if r.random_range(0..4) == 0 { r.random_range(2..=64usize) } else { r.random_range(2..=8usize) };
         let class = r.random_range(0..4);
